@@ -20,7 +20,8 @@ FUNCS = ["protocol.Context.shutdown", "TokenManager.shutdown/request/dispatch_er
          "MessageInterfaceUDP6.shutdown/connection_lost/error_received", "protocol.Request/BlockwiseRequest/ClientObservation", "pipe.run_driving_pipe"]
 
 SCEN = [("con_wait_ack",), ("acked_wait_sep",), ("blockwise_upload",), ("client_obs",), ("server_slow",), ("server_observer",),
-        ("backlog",), ("dedup",), ("con_wait_ack", "server_slow"), ("client_obs", "server_observer", "dedup"), ("non_wait",)]
+        ("backlog",), ("dedup",), ("con_wait_ack", "server_slow"), ("client_obs", "server_observer", "dedup"), ("non_wait",),
+        ("client_obs_pending",), ("client_obs_pending_blockwise",)]
 
 
 def mk_shutdown(si, race):
@@ -121,6 +122,13 @@ def mk_shutdown(si, race):
                     errs = []
                     rq.observation.register_errback(errs.append, _suppress_deprecation=True)
                     observations.append(errs)
+                if "client_obs_pending" in flags or "client_obs_pending_blockwise" in flags:
+                    # an observation whose first response has not arrived yet
+                    rq, m = a_request("obs2", observe=0, remote=stack.R1, blockwise="client_obs_pending_blockwise" in flags)
+                    errs = []
+                    rq.observation.register_errback(errs.append, _suppress_deprecation=True)
+                    observations.append(errs)
+                    futs.append(rq.response)
                 if "backlog" in flags:
                     rq1, m1 = a_request("q1", remote=stack.R2)
                     rq2, m2 = a_request("q2", remote=stack.R2)
